@@ -184,5 +184,15 @@ def laguerre_der_seq(ns, alpha, x):
 
     """
     k = 1
+    ns = list(ns)
+    if ns[0] == 0:
+        # L_0 is constant: its derivative is zero, and order n-k = -1 is not
+        # part of the sequence laguerre_seq produces
+        out = np.zeros((len(ns), *x.shape), dtype=x.dtype)
+        if len(ns) > 1:
+            out[1:] = laguerre_der_seq(ns[1:], alpha, x)
+
+        return out
+
     ns = [n-k for n in ns]
     return laguerre_seq(ns, alpha+k, x)
